@@ -13,6 +13,7 @@ All text is handled as latin-1 str (one char = one byte) so that arbitrary bytes
 import json
 import os
 import shutil
+import time
 import subprocess
 import tempfile
 
@@ -671,6 +672,994 @@ def boundary_programs(seed, tier):
     return progs
 
 
+# ------------------------------------------------------------------ nested rendering: programs with functions
+# Rendering inside rendering (see coq/C16/Nested.v): generated programs define functions and struct methods whose
+# bodies print (plain / printf-style / interpolated) and whose return values are interpolated strings, and call
+# them from {..} segments, print/println arguments, printf arguments, %s arguments that are interpolated
+# literals, initialisers and call statements, up to depth 3 and recursively on the same AST node.
+# A function is a *template* (source text + how to evaluate its leaf expressions); every call site becomes a
+# *call instance* for the model: parameter comps, the expressions of the body -> value / nested instance, the
+# executed statements, the return expression (CCall of Nested.v).  The demanded output is computed by an
+# independent evaluator over the same instances (oracle_*), from the generator's own record of the pieces
+# ("parts" / "fparts") - it never splits a literal itself.
+MAGIC = 4242          # hf(k) / sf_*(k) raise their error when k == MAGIC
+
+
+class FDef:
+    def __init__(self, name, rtype, params, level, struct=None):
+        self.name, self.rtype, self.params, self.level, self.struct = name, rtype, params, level, struct
+        self.body, self.ret = [], None
+        self.special = None
+
+
+def x_src(t):
+    k = t[0]
+    if k in ("leaf", "arith"):
+        return t[1]
+    if k == "ilit":
+        return lit(t[1])
+    if k == "call":
+        return "%s(%s)" % (t[1].name, ", ".join(x_src(a) for a in t[2]))
+    if k == "mcall":
+        return "%s.%s(%s)" % (t[1], t[2].name, ", ".join(x_src(a) for a in t[3]))
+    if k == "slit":
+        return '"%s"' % t[1]
+    raise ValueError(k)
+
+
+def x_kind(t):
+    k = t[0]
+    if k == "leaf":
+        return t[3]
+    if k in ("arith", "ilit"):
+        return "I"
+    if k == "slit":
+        return "S"
+    f = t[1] if k == "call" else t[2]
+    return "S" if f.rtype == "string" else "I"
+
+
+def x_value(t, ctx):
+    """python value of an effect-free expression / of the return value of an int call (None: computed by the model)"""
+    k = t[0]
+    if k == "leaf":
+        return ctx[t[2]]
+    if k == "arith":
+        return t[2](ctx)
+    if k == "ilit":
+        return t[1]
+    if k == "slit":
+        return t[1]
+    f, args = (t[1], t[2]) if k == "call" else (t[2], t[3])
+    if f.rtype == "string" or f.rtype == "void":
+        return None
+    cctx = callee_ctx(f, args, ctx, t[1] if k == "mcall" else None)
+    for st in f.body:
+        if st[0] == "ret_if" and st[2](cctx):
+            return x_value(st[3][1], cctx)
+    return x_value(f.ret[1], cctx)
+
+
+def callee_ctx(f, args, ctx, recv=None):
+    cctx = {}
+    for (ty, name), a in zip(f.params, args):
+        cctx[name] = x_value(a, ctx)
+    if f.struct:
+        members = ctx["@" + recv]
+        cctx["@self"] = members
+        for mname, mv in members.items():
+            cctx["self." + mname] = mv
+    return cctx
+
+
+def x_comp(t, ctx):
+    """the model's comp for an expression evaluated in a context"""
+    k = t[0]
+    if k in ("leaf", "arith", "ilit", "slit"):
+        return {"v": x_value(t, ctx)}
+    f, args = (t[1], t[2]) if k == "call" else (t[2], t[3])
+    cctx = callee_ctx(f, args, ctx, t[1] if k == "mcall" else None)
+    params = [[name, x_comp(a, ctx)] for (ty, name), a in zip(f.params, args)]
+    return realize(f.body, f.ret, cctx, params, set(n for _, n in f.params))
+
+
+def realize_arg(a, ctx, locs, bound):
+    if a[0] == "Q":
+        _, text, parts, fparts = a
+        out = {"k": "Q", "text": text}
+        if parts is not None:
+            cp = []
+            for p in parts:
+                if p[0] == "e":
+                    src = x_src(p[1])
+                    if src not in bound:
+                        locs.setdefault(src, x_comp(p[1], ctx))
+                    cp.append(["e", src, p[2]])
+                else:
+                    cp.append(list(p))
+            out["parts"] = cp
+        if fparts is not None:
+            out["fparts"] = [list(p) for p in fparts]
+        return out
+    t = a[1]
+    src = x_src(t)
+    if t[0] == "slit":
+        return {"k": "Q", "text": t[1]}
+    if src in bound or t[0] in ("call", "mcall"):
+        if src not in bound:
+            locs.setdefault(src, x_comp(t, ctx))
+        return {"k": "R", "src": src}
+    v = x_value(t, ctx)
+    return {"k": "I" if x_kind(t) == "I" else "S", "v": v, "src": src}
+
+
+def realize(body, ret, ctx, params, bound, keep_after=False):
+    """one call instance: the statements it executes, the expressions they look up, the return expression"""
+    ctx = dict(ctx)
+    bound = set(bound)
+    locs, stmts, r = {}, [], None
+    done = False
+    for st in body:
+        k = st[0]
+        if k == "print":
+            stmts.append({"nl": st[1], "args": [realize_arg(a, ctx, locs, bound) for a in st[2]], "kind": st[3]})
+            if st[3] == "n-bare":
+                stmts[-1]["bare"] = 1
+        elif k == "fail_if":
+            if st[2] is None or st[2](ctx):
+                stmts.append({"fail": st[3], "hard": st[4]})
+                if not keep_after:
+                    done = True
+                    break
+        elif k == "eval":
+            src = x_src(st[1])
+            locs.setdefault(src, x_comp(st[1], ctx))
+            stmts.append({"eval": src, "kind": "n-call-stmt"})
+        elif k == "let":
+            arg = realize_arg(st[3], ctx, locs, bound)
+            stmts.append({"let": st[2], "type": st[1], "arg": arg, "kind": "n-init"})
+            ctx[st[2]] = x_value(st[3][1], ctx) if st[3][0] == "E" else None
+            bound.add(st[2])
+        elif k == "ret_if":
+            if st[2](ctx):
+                r = realize_arg(st[3], ctx, locs, bound)
+                done = True
+                break
+    if not done and ret is not None:
+        r = realize_arg(ret, ctx, locs, bound)
+    return {"params": params, "locals": [[k, v] for k, v in locs.items()], "body": stmts, "ret": r}
+
+
+# ---- source text of templates
+def targ_src(a):
+    return '"%s"' % a[1] if a[0] == "Q" else x_src(a[1])
+
+
+def tstmt_src(st, ind="    "):
+    k = st[0]
+    if k == "print" and st[3] == "n-bare":
+        return ind + "print %s;" % targ_src(st[2][0])
+    if k == "print":
+        return ind + "%s(%s);" % ("println" if st[1] else "print", ", ".join(targ_src(a) for a in st[2]))
+    if k == "fail_if":
+        return ind + (st[3] if st[1] is None else "if (%s) { %s }" % (st[1], st[3]))
+    if k == "eval":
+        return ind + x_src(st[1]) + ";"
+    if k == "let":
+        return ind + "%s %s = %s;" % (st[1], st[2], targ_src(st[3]))
+    if k == "ret_if":
+        return ind + "if (%s) { return %s; }" % (st[1], targ_src(st[3]))
+    raise ValueError(k)
+
+
+def fdef_src(f, ind=""):
+    lines = [ind + "%s %s(%s) {" % (f.rtype, f.name, ", ".join("%s %s" % p for p in f.params))]
+    lines += [tstmt_src(st, ind + "    ") for st in f.body]
+    if f.ret is not None:
+        lines.append(ind + "    return %s;" % targ_src(f.ret))
+    lines.append(ind + "}")
+    return lines
+
+
+# ---- the demanded output (independent of the model)
+class Undetermined(Exception):
+    """some piece has no documented reading"""
+
+
+FAILV = ("fail",)
+
+
+class Oracle:
+    def __init__(self):
+        self.memo = {}
+
+    def comp(self, c):
+        """(what the evaluation writes, value or FAILV)"""
+        if "v" in c:
+            return "", c["v"]
+        key = id(c)
+        if key not in self.memo:
+            self.memo[key] = self.call(c)
+        return self.memo[key]
+
+    def call(self, c):
+        env, out = {}, []
+        for name, ac in c["params"]:
+            s, v = self.comp(ac)
+            out.append(s)
+            if v is FAILV:
+                return "".join(out), FAILV
+            env[name] = ("val", v)
+        for text, lc in c["locals"]:
+            env.setdefault(text, ("comp", lc))
+        for st in c["body"]:
+            s, failed = self.stmt(st, env)
+            out.append(s)
+            if failed:
+                return "".join(out), FAILV
+        if c["ret"] is None:
+            return "".join(out), 0
+        s, v = self.value(c["ret"], env)
+        out.append(s)
+        return "".join(out), v
+
+    def lookup(self, env, text):
+        kind, x = env[text]
+        return ("", x) if kind == "val" else self.comp(x)
+
+    def interp(self, a, env):
+        out, val = [], []
+        for p in a["parts"]:
+            if p[0] == "t":
+                val.append(p[1])
+            elif p[0] == "lb":
+                val.append("{")
+            elif p[0] == "rb":
+                val.append("}")
+            elif p[0] == "dollar":
+                pass
+            else:
+                s, v = self.lookup(env, p[1])
+                out.append(s)
+                if v is FAILV:
+                    return "".join(out), FAILV
+                r = spec_interp_value(v, p[2])
+                if r is None:
+                    raise Undetermined()
+                val.append(r)
+        return "".join(out), "".join(val)
+
+    def value(self, a, env):
+        """an argument as an expression: (output, value)"""
+        k = a["k"]
+        if k == "Q":
+            if "parts" in a:
+                return self.interp(a, env)
+            if "\\" in a["text"] or "{" in a["text"] or "}" in a["text"]:
+                raise Undetermined()
+            return "", a["text"]
+        if k in ("I", "S"):
+            return "", a["v"]
+        return self.lookup(env, a["src"])
+
+    def printed(self, a, env):
+        """an argument printed by print/println: (everything written, failed)"""
+        if a["k"] == "Q" and "parts" not in a:
+            t = spec_escape(a["text"])
+            if t is None or "{" in a["text"] or "}" in a["text"]:
+                raise Undetermined()
+            return t, False
+        s, v = self.value(a, env)
+        if v is FAILV:
+            return s, True
+        return s + (str(v) if isinstance(v, int) else v), False
+
+    def print_stmt(self, st, env):
+        args = st["args"]
+        nl = "\n" if st["nl"] else ""
+        if len(args) == 0:
+            return nl, False
+        if len(args) == 1:
+            s, failed = self.printed(args[0], env)
+            return (s, True) if failed else (s + nl, False)
+        fi = next((i for i, a in enumerate(args) if a["k"] == "Q" and "fparts" in a), None)
+        for i, a in enumerate(args):
+            if a["k"] == "Q" and "parts" not in a and detects_format(a["text"]) and (fi is None or i < fi):
+                raise Undetermined()
+        out = []
+        pre = args if fi is None else args[:fi]
+        for j, a in enumerate(pre):
+            if j > 0:
+                out.append(" ")
+            s, failed = self.printed(a, env)
+            out.append(s)
+            if failed:
+                return "".join(out), True
+        if fi is None:
+            return "".join(out) + nl, False
+        if fi > 0:
+            out.append(" ")
+        fmt = args[fi]
+        if not detects_format(fmt["text"]):
+            raise Undetermined()
+        vals = []
+        for a in args[fi + 1:]:
+            s, v = self.value(a, env)
+            out.append(s)
+            if v is FAILV:
+                return "".join(out), True
+            vals.append(v)
+        nd = sum(1 for p in fmt["fparts"] if p[0] == "d")
+        if nd != len(vals):
+            raise Undetermined()
+        it = iter(vals)
+        for p in fmt["fparts"]:
+            if p[0] == "t":
+                t = spec_escape(p[1])
+                if t is None:
+                    raise Undetermined()
+                out.append(t)
+            elif p[0] == "pp":
+                out.append("%")
+            else:
+                _, conv, flags, width = p
+                v = next(it)
+                if conv == "s":
+                    body = str(v) if isinstance(v, int) else v
+                    if "\\" in body:
+                        raise Undetermined()
+                    out.append(c_str_directive(flags, width, body))
+                elif conv == "c":
+                    body = chr(v % 256) if isinstance(v, int) else v[:1]
+                    if body in ("", "\0", "\\"):
+                        raise Undetermined()
+                    out.append(c_str_directive(flags, width, body))
+                else:
+                    if not isinstance(v, int):
+                        raise Undetermined()
+                    out.append(c_int_directive(conv, flags, width, v))
+        return "".join(out) + nl, False
+
+    def stmt(self, st, env):
+        """(what the statement writes, whether it ends the run with an error); extends env for a declaration"""
+        if "fail" in st:
+            return "", True
+        if "eval" in st:
+            s, v = self.lookup(env, st["eval"])
+            return s, v is FAILV
+        if "let" in st:
+            s, v = self.value(st["arg"], env)
+            if v is FAILV:
+                return s, True
+            env[st["let"]] = ("val", v)
+            return s, False
+        return self.print_stmt(st, env)
+
+
+def apply_oracle(p):
+    """fill in want / wfail of main's statements from the independent evaluator"""
+    o = Oracle()
+    env = {}
+    for e in p["env"]:
+        env.setdefault(e[0], ("comp", e[2]) if e[1] == "C" else ("val", e[2]))
+    dead = False
+    for st in p["stmts"]:
+        if "fail" in st or "ret" in st:
+            break
+        if dead:
+            st["want"] = None
+            continue
+        try:
+            s, failed = o.stmt(st, env)
+            st["want"] = s
+            if failed:
+                st["wfail"] = True
+                break
+        except Undetermined:
+            st["want"] = None
+            p["rc_unknown"] = 1      # whether this statement ends the run is not known to the oracle
+            if "let" in st:
+                dead = True          # the variable's value is unknown: no oracle from here on
+    return p
+
+
+# ---- generation of templates
+SPECS = ["x", "X", "b", "d", "%d", "%dd", "0%d", "0%dd", "%dx", "0%dx", "0%dX", "0%db", ""]
+
+
+class NestGen:
+    def __init__(self, rng, k):
+        self.rng, self.k = rng, k
+        self.funcs = []          # FDef, callees before callers
+        self.top = None          # source of the functions
+        self.avoided = {}
+        self.fail_site = None    # where the run-time error of an "error" program is placed
+
+    # -- pieces
+    def text(self, n=5, allow=""):
+        return rand_text(self.rng, n, allow)
+
+    def spec(self):
+        rng = self.rng
+        if rng.random() < 0.35:
+            return None
+        w = rng.randint(0, 22)
+        s = rng.choice(SPECS)
+        return s % w if "%d" in s else s
+
+    def pick_call(self, sc, kind, depth, in_lit=False):
+        """a call expression of the wanted kind ('S' / 'I' / 'V' void) to a callable of the scope, or None.
+        in_lit: the call stands inside the braces of an interpolated literal, where no quoted literal can appear"""
+        rng = self.rng
+        leaf_strs = [x for x in sc["strs"] if x[0] == "leaf" and len(x) < 5 and "." not in x[1]]
+        cands = [f for f in sc["funcs"] if (("S" if f.rtype == "string" else "V" if f.rtype == "void" else "I") == kind)
+                 and (f.struct is None or sc["objs"]) and f.special is None
+                 and not (in_lit and not leaf_strs and any(ty == "string" for ty, _ in f.params))]
+        if not cands or depth <= 0:
+            return None
+        f = rng.choice(cands)
+        return self.call_of(f, sc, depth, in_lit=in_lit)
+
+    def call_of(self, f, sc, depth, force_k=None, in_lit=False):
+        rng = self.rng
+        args = []
+        for ty, name in f.params:
+            if ty == "long":
+                c = self.pick_call(sc, "I", depth - 1, in_lit) if rng.random() < 0.12 else None
+                args.append(c or rng.choice(sc["ints"] + sc["smalls"]))
+            elif ty == "int" and name == "d":
+                args.append(("ilit", rng.randint(0, 3)))       # recursion depth of r(d, n)
+            elif ty == "int":
+                if force_k is not None:
+                    args.append(("ilit", force_k))
+                else:
+                    args.append(rng.choice(sc["smalls"]))
+            else:
+                leaf_strs = [x for x in sc["strs"] if x[0] == "leaf" and len(x) < 5 and "." not in x[1]]      # let-bound strings are not passed on
+                args.append(rng.choice(leaf_strs + ([] if in_lit else [("slit", self.text(4) or "w")])))
+        if f.struct:
+            recv = rng.choice(sc["objs"])
+            return ("mcall", recv, f, args)
+        return ("call", f, args)
+
+    def expr_part(self, sc, depth, p_call):
+        """one {..} segment: (exprT, spec)"""
+        rng = self.rng
+        if rng.random() < p_call:
+            kind = rng.choice(["S", "S", "I"])
+            c = self.pick_call(sc, kind, depth, in_lit=True)
+            if c is not None:
+                return c, (self.spec() if kind == "I" else None)
+        r = rng.random()
+        if r < 0.45:
+            return rng.choice(sc["ints"]), self.spec()
+        strs = [x for x in sc["strs"] if x[0] == "leaf"]      # a quoted literal cannot stand inside the braces
+        if r < 0.8 or not strs:
+            return rng.choice(sc["smalls"]), self.spec()
+        return rng.choice(strs), None
+
+    def interp(self, sc, depth, p_call=0.5, maxseg=5, force_call=None):
+        """an interpolated literal: ("Q", text, parts, None)"""
+        rng = self.rng
+        parts = []
+        n = rng.randint(1, maxseg)
+        pos = rng.randint(0, n - 1)
+        for i in range(n):
+            r = rng.random()
+            if i == pos and force_call is not None:
+                parts.append(("e", force_call, (self.spec() if x_kind(force_call) == "I" else None)))
+            elif r < 0.30:
+                parts.append(("t", self.text(5, allow="%")))
+            elif r < 0.36:
+                parts.append(("lb",))
+            elif r < 0.42:
+                parts.append(("rb",))
+            else:
+                e, sp = self.expr_part(sc, depth, p_call)
+                if rng.random() < 0.1:
+                    parts.append(("dollar",))
+                parts.append(("e", e, sp))
+        if rng.random() < 0.7:      # text directly before and after (the seeded change lost exactly that)
+            parts = [("t", self.text(4) or "é".encode("utf-8").decode("latin-1"))] + parts + [("t", self.text(4) or "|")]
+        if not any(p[0] in ("e", "lb") for p in parts):
+            parts.append(("e", rng.choice(sc["smalls"]), None))
+        # a lone '{' must be followed by something that is not '{': "{{" + "{x}" is fine, but a text ending in '$' before
+        # "{{" would change the reading; keep '$' only in front of an expression
+        text = []
+        for p in parts:
+            if p[0] == "t":
+                text.append(p[1])
+            elif p[0] == "lb":
+                text.append("{{")
+            elif p[0] == "rb":
+                text.append("}}")
+            elif p[0] == "dollar":
+                text.append("$")
+            else:
+                text.append("{" + x_src(p[1]) + ("" if p[2] is None else ":" + p[2]) + "}")
+        return ("Q", "".join(text), parts, None)
+
+    def plain_lit(self, escapes=True):
+        rng = self.rng
+        t = self.text(6)
+        if escapes and rng.random() < 0.3:
+            t += rng.choice(["\\n", "\\t", "\\\\", "\\%", "\\r"]) + self.text(2)
+        return ("Q", t, None, None)
+
+    def print_arg(self, sc, depth, p_call):
+        """an argument of a plain print/println"""
+        rng = self.rng
+        r = rng.random()
+        if r < p_call:
+            c = self.pick_call(sc, rng.choice(["S", "I"]), depth)
+            if c is not None:
+                return ("E", c)
+        r = rng.random()
+        if r < 0.3:
+            return ("E", rng.choice(sc["ints"] + sc["smalls"]))
+        if r < 0.45:
+            return ("E", rng.choice(sc["strs"]))
+        if r < 0.65:
+            return self.plain_lit()
+        return self.interp(sc, depth, p_call, 3)
+
+    def st_plain(self, sc, depth, p_call=0.45):
+        rng = self.rng
+        n = rng.choice([1, 2, 2, 3, 4, 5])
+        return ("print", 1 if rng.random() < 0.85 else 0, [self.print_arg(sc, depth, p_call) for _ in range(n)], "n-plain")
+
+    def st_interp(self, sc, depth, p_call=0.6):
+        rng = self.rng
+        return ("print", 1 if rng.random() < 0.9 else 0, [self.interp(sc, depth, p_call, 5)], "n-interp")
+
+    def st_format(self, sc, depth, p_call=0.45):
+        rng = self.rng
+        pre = []
+        for _ in range(rng.choice([0, 0, 1, 2])):
+            r = rng.random()
+            if r < 0.4:
+                pre.append(("E", rng.choice(sc["ints"] + sc["smalls"])))
+            elif r < 0.6:
+                pre.append(("Q", (self.text(4) or "w"), None, None))
+            elif r < 0.8:
+                c = self.pick_call(sc, rng.choice(["S", "I"]), depth)
+                pre.append(("E", c) if c is not None else ("E", rng.choice(sc["smalls"])))
+            else:
+                pre.append(self.interp(sc, depth, p_call, 3))
+        fparts, args = [], []
+        first = True
+        for _ in range(rng.randint(1, 4)):
+            fparts.append(("t", self.text(4)))
+            conv = rng.choice(["d", "d", "lld", "s", "s", "s", "i", "u", "x", "X", "o", "pp"])
+            if conv == "pp":
+                fparts.append(("pp",))
+                first = False
+                continue
+            if first:       # the first directive decides whether the literal is recognised as a format at all
+                conv = rng.choice(["d", "lld", "s", "s"])
+                flags = ""
+            else:
+                flags = rng.choice(["", "", "0", "-", "-0"])
+            first = False
+            width = rng.choice([0, 0] + list(range(0, 23)))
+            fparts.append(("d", conv, flags, width))
+            if conv == "s":
+                r = rng.random()
+                if r < 0.3:
+                    c = self.pick_call(sc, "S", depth)
+                    args.append(("E", c) if c is not None else ("E", rng.choice(sc["strs"])))
+                elif r < 0.6:       # an interpolated literal as %s argument, itself calling functions
+                    args.append(self.interp(sc, depth, p_call, 3))
+                elif r < 0.75:
+                    args.append(("E", rng.choice(sc["strs"])))
+                elif r < 0.9:
+                    args.append(("Q", self.text(5), None, None))
+                else:
+                    args.append(("E", rng.choice(sc["smalls"])))
+            else:
+                c = self.pick_call(sc, "I", depth) if rng.random() < p_call else None
+                args.append(("E", c) if c is not None else ("E", rng.choice(sc["ints"] + sc["smalls"])))
+        fparts.append(("t", self.text(3)))
+        text = []
+        for p in fparts:
+            if p[0] == "t":
+                text.append(p[1])
+            elif p[0] == "pp":
+                text.append("%%")
+            else:
+                text.append("%" + p[2] + (str(p[3]) if p[3] else "") + p[1])
+        fmt = ("Q", "".join(text), None, fparts)
+        return ("print", 1 if rng.random() < 0.85 else 0, pre + [fmt] + args, "n-format")
+
+    def st_any(self, sc, depth, p_call=0.5):
+        r = self.rng.random()
+        if r < 0.03:
+            return ("print", 1, [], "n-empty")                  # println();
+        if r < 0.07:        # print expr;  (no parentheses: Interpreter::print_value directly)
+            c = self.pick_call(sc, self.rng.choice(["S", "I"]), depth) if self.rng.random() < p_call else None
+            return ("print", 0, [("E", c if c is not None else self.rng.choice(sc["ints"] + sc["smalls"]))], "n-bare")
+        if r < 0.4:
+            return self.st_interp(sc, depth, p_call)
+        if r < 0.7:
+            return self.st_format(sc, depth, p_call)
+        return self.st_plain(sc, depth, p_call)
+
+    # -- functions
+    def scope_of(self, f, level):
+        """what the body of f can see: its parameters, members of self, every function defined before it"""
+        sc = {"ints": [], "smalls": [], "strs": [], "funcs": [g for g in self.funcs if g.level < level], "objs": []}
+        for ty, name in f.params:
+            if ty == "long":
+                sc["ints"].append(("leaf", name, name, "I"))
+            elif ty == "int":
+                sc["smalls"].append(("leaf", name, name, "I"))
+                c = self.rng.randint(1, 9)
+                sc["smalls"].append(("arith", "%s + %d" % (name, c), (lambda ctx, n=name, c=c: ctx[n] + c)))
+            else:
+                sc["strs"].append(("leaf", name, name, "S"))
+        if f.struct:
+            sc["ints"].append(("leaf", "self.a", "self.a", "I"))
+            sc["smalls"].append(("leaf", "self.b", "self.b", "I"))
+            sc["strs"].append(("leaf", "self.nm", "self.nm", "S"))
+            sc["objs"] = ["self"]
+        if not sc["ints"]:
+            sc["ints"] = [("ilit", POOL[(self.k * 13 + level * 7 + len(self.funcs)) % len(POOL)])]
+        if not sc["smalls"]:
+            sc["smalls"] = [("ilit", self.rng.randint(-99, 99))]
+        if not sc["strs"]:
+            sc["strs"] = [("slit", self.text(4) or "z")]
+        return sc
+
+    def make_func(self, idx, level, struct=None):
+        rng = self.rng
+        rtype = rng.choice(["string", "string", "string", "long", "int", "void"])
+        sig = rng.choice([[("long", "n")], [("long", "n"), ("int", "k")], [("long", "n"), ("string", "t")], [("int", "k")],
+                          [("int", "k"), ("string", "t")], [("long", "n"), ("int", "k"), ("string", "t")]] + ([[]] if struct else []))
+        if struct:
+            sig = [p for p in sig if p[1] != "t"] if rng.random() < 0.5 else sig
+        if rtype == "int" and not any(ty == "int" for ty, _ in sig):
+            sig = sig + [("int", "k")]
+        f = FDef(("m%d" if struct else "f%d") % idx, rtype, sig, level, struct)
+        sc = self.scope_of(f, level)
+        depth = level            # calls reach strictly lower levels
+        p_call = 0.0 if level == 0 else 0.55
+        nb = rng.choice([0, 0, 1, 1, 2]) if rtype != "void" else rng.choice([1, 2])
+        for _ in range(nb):
+            r = rng.random()
+            if r < 0.12 and level > 0:
+                c = self.pick_call(sc, "V", depth)
+                if c is not None:
+                    f.body.append(("eval", c))
+                    continue
+            if r < 0.24:
+                nm = "w%d" % len(f.body)
+                if rng.random() < 0.6:
+                    f.body.append(("let", "string", nm, self.interp(sc, depth, p_call, 3)))
+                    sc["strs"] = sc["strs"] + [("leaf", nm, nm, "S", "let")]
+                    continue
+            f.body.append(self.st_any(sc, depth, p_call))
+        if rtype == "string":
+            r = rng.random()
+            force = self.pick_call(sc, rng.choice(["S", "S", "I"]), depth, in_lit=True) if level > 0 and r < 0.75 else None
+            if r < 0.85:
+                f.ret = self.interp(sc, depth, p_call, 4, force_call=force)
+            elif r < 0.93:
+                f.ret = ("E", ("slit", self.text(5) or "r"))
+            else:
+                f.ret = ("E", rng.choice(sc["strs"]))
+        elif rtype == "long":
+            f.ret = ("E", rng.choice([e for e in sc["ints"] + sc["smalls"]]))
+        elif rtype == "int":
+            f.ret = ("E", rng.choice(sc["smalls"]))
+        return f
+
+    def make_rec(self, idx):
+        """string r(int d, long n): the same AST node is evaluated again while it is being evaluated"""
+        rng = self.rng
+        f = FDef("r%d" % idx, "string", [("int", "d"), ("long", "n")], 1)
+        sc = self.scope_of(f, 1)
+        sc["smalls"] = [("leaf", "d", "d", "I")]
+        base = self.interp(sc, 0, 0.0, 3)
+        f.body.append(("ret_if", "d <= 0", (lambda ctx: ctx["d"] <= 0), base))
+        if rng.random() < 0.6:
+            f.body.append(self.st_any(sc, 1, 0.3))
+        rec = ("call", f, [("arith", "d - 1", (lambda ctx: ctx["d"] - 1)), ("leaf", "n", "n", "I")])
+        f.ret = self.interp(sc, 1, 0.3, 3, force_call=rec)
+        return f
+
+    def make_special(self):
+        """functions that raise a run-time error when k == MAGIC: hf (assert: the process exits at once), via (one more
+        level around hf, with pending text), sf_loud / sf_quiet (an exception that unwinds; see known finding
+        C16-print-arg-error-reevaluated for why sf_loud is only called from statements and initialisers)"""
+        rng = self.rng
+        out = []
+        hf = FDef("hf", "int", [("int", "k")], 0)
+        sc = self.scope_of(hf, 0)
+        hf.body = [("print", rng.choice([0, 1]), [self.interp(sc, 0, 0.0, 2)], "n-interp"),
+                   ("fail_if", "k == %d" % MAGIC, (lambda ctx: ctx["k"] == MAGIC), "assert(1 == 2);", True)]
+        hf.ret = ("E", ("leaf", "k", "k", "I"))
+        hf.special = "hard"
+        via = FDef("via", "string", [("int", "k")], 1)
+        sc = self.scope_of(via, 1)
+        via.body = [self.st_any(sc, 0, 0.0)] if rng.random() < 0.6 else []
+        via.ret = self.interp(sc, 0, 0.0, 2, force_call=("call", hf, [("leaf", "k", "k", "I")]))
+        via.special = "hard"
+        soft = rng.choice(["int zz_ = 0; int qq_ = 5 / zz_;", "int[3] arr_; arr_[5] = 1;", "int zz_ = 0; int qq_ = 5 % zz_;"])
+        sl = FDef("sf_loud", "int", [("int", "k")], 0)
+        sc = self.scope_of(sl, 0)
+        sl.body = [("print", 1, [self.interp(sc, 0, 0.0, 2)], "n-interp"),
+                   ("fail_if", "k == %d" % MAGIC, (lambda ctx: ctx["k"] == MAGIC), soft, False)]
+        sl.ret = ("E", ("leaf", "k", "k", "I"))
+        sl.special = "soft-loud"
+        sq = FDef("sf_quiet", "int", [("int", "k")], 0)
+        sq.body = [("fail_if", "k == %d" % MAGIC, (lambda ctx: ctx["k"] == MAGIC), soft, False)]
+        sq.ret = ("E", ("arith", "k + 1", (lambda ctx: ctx["k"] + 1)))
+        sq.special = "soft-quiet"
+        return [hf, via, sl, sq]
+
+    def build(self):
+        rng = self.rng
+        # free functions of level 0..3, methods of struct P (levels 0..2), a recursive function, the failing ones
+        self.special = self.make_special()
+        self.funcs += self.special
+        idx = 0
+        for level in range(0, 4):
+            for _ in range(rng.choice([2, 3]) if level < 2 else rng.choice([1, 2])):
+                self.funcs.append(self.make_func(idx, level))
+                idx += 1
+            if level < 3 and rng.random() < 0.8:
+                self.funcs.append(self.make_func(idx, level, struct="P"))
+                idx += 1
+            if level == 1:
+                self.funcs.append(self.make_rec(idx))
+                idx += 1
+        # source: free functions must precede their callers; methods live in one impl block, which comes after all
+        # free functions (a method may call any of them)
+        self.top = {"frees": [[f.name, fdef_src(f)] for f in self.funcs if not f.struct],
+                    "meths": [[m.name, "%s %s(%s);" % (m.rtype, m.name, ", ".join("%s %s" % p for p in m.params)), fdef_src(m, "    ")]
+                              for m in self.funcs if m.struct]}
+        return self
+
+
+def top_lines(top):
+    if not top:
+        return []
+    lines = ["struct P { long a; int b; string nm; };"]
+    if top["meths"]:
+        lines.append("interface Sh { %s };" % " ".join(m[1] for m in top["meths"]))
+    for f in top["frees"]:
+        lines += f[1]
+    if top["meths"]:
+        lines.append("impl Sh for P {")
+        for m in top["meths"]:
+            lines += m[2]
+        lines.append("};")
+    return lines
+
+
+def prune_top(top, used):
+    """keep only the functions reachable (by name) from the text `used`"""
+    if not top:
+        return top
+    import re
+    texts = {f[0]: "\n".join(f[1]) for f in top["frees"]}
+    texts.update({m[0]: "\n".join(m[2]) for m in top["meths"]})
+    keep, todo = set(), [used]
+    while todo:
+        t = todo.pop()
+        for name in texts:
+            if name not in keep and re.search(r"\b%s\(" % re.escape(name), t):
+                keep.add(name)
+                todo.append(texts[name])
+    return {"frees": [f for f in top["frees"] if f[0] in keep], "meths": [m for m in top["meths"] if m[0] in keep]}
+
+
+def nested_program(seed, k, tier, n_stmts):
+    rng = rng_for(seed, "c16-nest", k)
+    ng = NestGen(rng, k).build()
+    g = Gen(rng, k)                  # main's variables: 8 boundary integers, 3 small ints, 3 strings
+    decls = list(g.decls)
+    ctx = {}
+    for n, v in g.ints + g.small:
+        ctx[n] = v
+    for n, t in g.strs:
+        ctx[n] = t
+    objs = []
+    for on in ("p", "q"):
+        a = g.pick_value(rng.randint(0, 50))
+        b = rng.randint(-999, 999)
+        nm = rand_text(rng, 5)
+        decls.append('P %s = {%s, %s, "%s"};' % (on, lit(a), lit(b), nm))
+        ctx["@" + on] = {"a": a, "b": b, "nm": nm}
+        ctx[on + ".a"], ctx[on + ".b"], ctx[on + ".nm"] = a, b, nm
+        objs.append(on)
+    arr = [g.pick_value(rng.randint(0, 50)) for _ in range(4)]
+    decls.append("long[4] arr = [%s];" % ", ".join(lit(v) for v in arr))
+    sc = {"ints": [("leaf", n, n, "I") for n, _ in g.ints] + [("leaf", "p.a", "p.a", "I"), ("leaf", "q.a", "q.a", "I")]
+                  + [("leaf", "arr[%d]" % i, "arr[%d]" % i, "I") for i in range(4)],
+          "smalls": [("leaf", n, n, "I") for n, _ in g.small] + [("leaf", "p.b", "p.b", "I")]
+                    + [("arith", "%s + %d" % (g.small[0][0], 7), (lambda c, n=g.small[0][0]: c[n] + 7)),
+                       ("arith", "%s * 2 - %s" % (g.small[1][0], g.small[2][0]), (lambda c, a=g.small[1][0], b=g.small[2][0]: c[a] * 2 - c[b]))],
+          "strs": [("leaf", n, n, "S") for n, _ in g.strs],
+          "funcs": list(ng.funcs), "objs": objs}
+    for i in range(4):
+        ctx["arr[%d]" % i] = arr[i]
+    # s[i] of a string variable = the code point of its i-th UTF-8 character (utf8_utils), printed as a number
+    for n, t in g.strs:
+        try:
+            u = t.encode("latin-1").decode("utf-8")
+        except UnicodeDecodeError:
+            continue
+        for i in range(len(u)):
+            if rng.random() < 0.5:
+                key = "%s[%d]" % (n, i)
+                ctx[key] = ord(u[i])
+                sc["smalls"].append(("leaf", key, key, "I"))
+    sc0 = {k_: list(v_) for k_, v_ in sc.items()}      # the scope without main's later declarations
+    body = []
+    nlet = 0
+    for j in range(n_stmts):
+        r = rng.random()
+        if r < 0.10:
+            c = ng.pick_call(sc, "V", 3) or ng.pick_call(sc, "S", 3)
+            if c is not None:
+                body.append(("eval", c))
+                continue
+        if r < 0.22:
+            nm = "L%d" % nlet
+            nlet += 1
+            if rng.random() < 0.65:
+                body.append(("let", "string", nm, ng.interp(sc, 3, 0.6, 4)))
+                sc["strs"] = sc["strs"] + [("leaf", nm, nm, "S", "let")]
+            else:
+                c = ng.pick_call(sc, "I", 3)
+                if c is not None:
+                    f = c[1] if c[0] == "call" else c[2]
+                    body.append(("let", "long" if f.rtype == "long" else "int", nm, ("E", c)))
+                    (sc["ints"] if f.rtype == "long" else sc["smalls"]).append(("leaf", nm, nm, "I"))
+            continue
+        body.append(ng.st_any(sc, 3, 0.6))
+    # how the run ends
+    ending = "normal"
+    r = rng.random()
+    avoided = {}
+    if r < 0.35:
+        ending = "error"
+        pos = rng.randint(0, len(body))
+        hf, via, sl, sq = ng.special
+        how = rng.random()
+        if how < 0.2:
+            body.insert(pos, ("fail_if", None, None, rng.choice(FAILS), False))
+        else:
+            hard_call = ("call", rng.choice([hf, hf, via]), [("ilit", MAGIC)])
+            loud = ("call", sl, [("ilit", MAGIC)])
+            quiet = ("call", sq, [("ilit", MAGIC)])
+            where = rng.choice(["interp", "interp", "arg", "fmtarg", "let", "eval", "sarg"])
+            if where in ("eval", "let") and rng.random() < 0.5:
+                fc = loud           # an exception raised outside a print argument: no re-evaluation
+            elif where in ("arg", "fmtarg") and rng.random() < 0.3:
+                fc = quiet          # an exception inside a print argument that has written nothing yet
+            else:
+                fc = hard_call
+                if where not in ("eval", "let"):
+                    avoided["C16-print-arg-error-reevaluated"] = 1
+            if where == "interp":
+                st = ("print", 1, [ng.interp(sc0, 3, 0.4, 4, force_call=fc)], "n-interp-fail")
+            elif where == "arg":
+                st = ("print", 1, [ng.print_arg(sc0, 3, 0.3) for _ in range(rng.randint(0, 2))] + [("E", fc)]
+                      + [ng.print_arg(sc0, 3, 0.3) for _ in range(rng.randint(0, 2))], "n-plain-fail")
+                if fc is quiet:     # nothing may be written by the same argument list before the exception: keep it first
+                    st = ("print", 1, [("E", fc)] + [ng.print_arg(sc0, 3, 0.3) for _ in range(rng.randint(0, 2))], "n-plain-fail")
+            elif where == "fmtarg":
+                fmt = ("Q", "%d|%d|", None, [("d", "d", "", 0), ("t", "|"), ("d", "d", "", 0), ("t", "|")])
+                if fc is quiet:     # nothing may be written by the same statement before the exception
+                    st = ("print", 1, [fmt, ("E", fc), ("E", rng.choice(sc0["smalls"]))], "n-format-fail")
+                else:
+                    st = ("print", 1, [fmt, ("E", rng.choice(sc0["smalls"])), ("E", fc)], "n-format-fail")
+            elif where == "sarg":
+                st = ("print", 1, [("Q", "%s|%d", None, [("d", "s", "", 0), ("t", "|"), ("d", "d", "", 0)]),
+                                   ng.interp(sc0, 3, 0.3, 3, force_call=hard_call), ("E", rng.choice(sc0["smalls"]))], "n-format-fail")
+            elif where == "let":
+                st = ("let", "int", "LF", ("E", fc))
+            else:
+                st = ("eval", fc)
+            body.insert(pos, st)
+    elif r < 0.42:
+        ending = "return"
+    main_ctx = dict(ctx)
+    inst = realize(body, None, main_ctx, [], set(), keep_after=True)
+    stmts = inst["body"]
+    if ending == "return":
+        stmts.insert(rng.randint(0, len(stmts)), {"ret": 1})
+    env = [[t, "C", c] if "body" in c else [t, "I" if isinstance(c["v"], int) else "S", c["v"]] for t, c in inst["locals"]]
+    p = {"k": k, "decls": decls, "env": env, "stmts": stmts, "ending": ending, "main": rng.choice(["void", "int"]),
+         "avoided": avoided, "top": ng.top, "nested": 1}
+    return apply_oracle(p)
+
+
+def nested_malformed(seed, n):
+    """a literal that does not split, inside a function (called or not): parse error, nothing runs"""
+    out = []
+    for k in range(n):
+        rng = rng_for(seed, "c16-nest-bad", k)
+        p = nested_program(seed * 31 + 7, k, "quick", 6)
+        t = rand_text(rng, 3) + rng.choice(["{k", "k}", "{k} }", "a } b {k}", "{k:5", "{{k}", "{k}}", "{ {k}", "${k", "x{k}y}z", "{k:{}"])
+        p["top"]["frees"].append(["zz", ["string zz(int k) {", '    return "%s";' % t, "}"]])
+        p["env"].append(["zz(0)", "C", {"params": [["k", {"v": 0}]], "locals": [], "body": [], "ret": {"k": "Q", "text": t}}])
+        if rng.random() < 0.5:
+            p["stmts"].append({"nl": 1, "args": [{"k": "R", "src": "zz(0)"}], "want": None, "kind": "malformed"})
+        p["ending"] = "parse-error"
+        out.append(p)
+    return out
+
+
+def nested_stats(p, st):
+    """measured shape of a nested program: call instances, and every rendering (interpolated literal / plain argument
+    list / printf-style statement) with the number of renderings in progress around it and the kind of the innermost one"""
+    st.setdefault("instances", 0)
+    st.setdefault("renderings_by_depth", {})
+    st.setdefault("inner_in_outer", {})
+    st.setdefault("programs_by_max_depth", {})
+    top = [0]
+
+    def arg_refs(a):
+        if a["k"] == "R":
+            return [a["src"]]
+        if a["k"] == "Q" and "parts" in a:
+            return [q[1] for q in a["parts"] if q[0] == "e"]
+        return []
+
+    def note(kind, depth, outer):
+        d = st["renderings_by_depth"]
+        d[depth] = d.get(depth, 0) + 1
+        top[0] = max(top[0], depth)
+        if outer:
+            key = "%s in %s" % (kind, outer)
+            st["inner_in_outer"][key] = st["inner_in_outer"].get(key, 0) + 1
+
+    def walk(inst, rd, outer):
+        st["instances"] += 1
+        loc = dict((t, c) for t, c in inst["locals"])
+
+        def visit(refs, rd2, kind):
+            for r in refs:
+                c = loc.get(r)
+                if c is not None and "body" in c:
+                    walk(c, rd2, kind)
+
+        def render_arg(a, rd2, kind):
+            if a["k"] == "Q" and "parts" in a:
+                note("interp", rd2 + 1, kind)
+                visit(arg_refs(a), rd2 + 1, "interp")
+            else:
+                visit(arg_refs(a), rd2, kind)
+
+        for _, c in inst["params"]:
+            if "body" in c:
+                walk(c, rd, outer)
+        for s in inst["body"]:
+            if "fail" in s or "ret" in s:
+                break
+            if "eval" in s:
+                visit([s["eval"]], rd, outer)
+            elif "let" in s:
+                render_arg(s["arg"], rd, outer)
+            elif len(s["args"]) == 1 and s["args"][0]["k"] == "Q":
+                render_arg(s["args"][0], rd, outer)
+            else:
+                kind = "printf" if any("fparts" in a for a in s["args"]) else "println"
+                note(kind, rd + 1, outer)
+                for a in s["args"]:
+                    render_arg(a, rd + 1, kind)
+        if inst.get("ret"):
+            render_arg(inst["ret"], rd, outer)
+
+    walk({"params": [], "locals": [[e[0], e[2]] for e in p["env"] if e[1] == "C"], "body": p["stmts"], "ret": None}, 0, None)
+    st["instances"] -= 1
+    m = st["programs_by_max_depth"]
+    m[top[0]] = m.get(top[0], 0) + 1
+
+
 # ------------------------------------------------------------------ rendering a description
 def arg_src(a):
     return '"%s"' % a["text"] if a["k"] == "Q" else a["src"]
@@ -681,14 +1670,31 @@ def stmt_src(s):
         return s["fail"]
     if "ret" in s:
         return "return;"
+    if "eval" in s:
+        return s["eval"] + ";"
+    if "let" in s:
+        return "%s %s = %s;" % (s["type"], s["let"], arg_src(s["arg"]))
+    if s.get("bare"):
+        return "print %s;" % arg_src(s["args"][0])          # the form without parentheses
     return "%s(%s);" % ("println" if s["nl"] else "print", ", ".join(arg_src(a) for a in s["args"]))
 
 
+def selected(p, only):
+    """indices of the statements of an isolated sub-program: the chosen ones plus the declarations before them
+    (a later statement may use the variable)"""
+    if only is None:
+        return list(range(len(p["stmts"])))
+    last = max(only) if only else -1
+    return [i for i, s in enumerate(p["stmts"]) if i in only or ("let" in s and i < last)]
+
+
 def program_src(p, only=None):
-    lines = ["%s main() {" % p.get("main", "void")]
+    lines = top_lines(p.get("top"))
+    lines += ["%s main() {" % p.get("main", "void")]
     lines += ["    " + d for d in p["decls"]]
+    sel = set(selected(p, only))
     for i, s in enumerate(p["stmts"]):
-        if only is not None and i not in only:
+        if i not in sel:
             continue
         src = stmt_src(s)
         if src == "return;" and p.get("main") == "int":
@@ -700,35 +1706,84 @@ def program_src(p, only=None):
     return "\n".join(lines) + "\n"
 
 
+def arg_tok(a):
+    if a["k"] == "Q":
+        return "Q" + hexs(a["text"])
+    if a["k"] == "I":
+        return "I%d" % a["v"]
+    if a["k"] == "S":
+        return "S" + hexs(a["v"])
+    return "R" + hexs(a["src"])
+
+
+def stmt_lines(s, out):
+    if "fail" in s:
+        out.append("F")
+    elif "eval" in s:
+        out.append("X " + hexs(s["eval"]))
+    elif "let" in s:
+        out.append("T %s %s" % (hexs(s["let"]), arg_tok(s["arg"])))
+    else:
+        out.append("P %d %s" % (s["nl"], " ".join(arg_tok(a) for a in s["args"])))
+
+
+def comp_lines(c, out):
+    if "v" in c:
+        out.append("VAL I %d" % c["v"] if isinstance(c["v"], int) else "VAL S " + hexs(c["v"]))
+        return
+    out.append("CALL")
+    for name, ac in c["params"]:
+        out.append("A " + hexs(name))
+        comp_lines(ac, out)
+    for text, lc in c["locals"]:
+        out.append("L " + hexs(text))
+        comp_lines(lc, out)
+    for s in c["body"]:
+        stmt_lines(s, out)
+    if c["ret"] is not None:
+        out.append("RET " + arg_tok(c["ret"]))
+    out.append("ENDCALL")
+
+
 def model_lines(p, only=None):
-    out = ["CASE"]
+    out = ["CASE", "CALL"]
     for e, kind, v in p["env"]:
-        out.append("E %s %s %s" % (hexs(e), kind, v if kind == "I" else hexs(v)))
-    for i, s in enumerate(p["stmts"]):
-        if only is not None and i not in only:
-            continue
-        if "fail" in s:
-            out.append("F")
-        elif "ret" in s:
-            break
+        if kind == "C":
+            out.append("L " + hexs(e))
+            comp_lines(v, out)
         else:
-            toks = []
-            for a in s["args"]:
-                toks.append("Q" + hexs(a["text"]) if a["k"] == "Q" else
-                            ("I%d" % a["v"] if a["k"] == "I" else "S" + hexs(a["v"])))
-            out.append("P %d %s" % (s["nl"], " ".join(toks)))
+            out.append("E %s %s %s" % (hexs(e), kind, v if kind == "I" else hexs(v)))
+    sel = set(selected(p, only))
+    for i, s in enumerate(p["stmts"]):
+        if i not in sel:
+            continue
+        if "ret" in s:
+            break
+        stmt_lines(s, out)
+    out.append("ENDCALL")
     out.append("END")
+    return out
+
+
+def executed(p, only=None):
+    """the statements of main that run and write (in order), up to the one that ends the run"""
+    sel = set(selected(p, only))
+    out = []
+    for i, s in enumerate(p["stmts"]):
+        if i not in sel:
+            continue
+        if "fail" in s or "ret" in s:
+            break
+        out.append(s)
+        if s.get("wfail"):
+            break
     return out
 
 
 def want_bytes(p, only=None):
     """output demanded by the property's own reading for the whole run, None if some statement has none"""
     out = []
-    for i, s in enumerate(p["stmts"]):
-        if only is not None and i not in only:
-            continue
-        if "fail" in s or "ret" in s:
-            break
+    for s in executed(p, only):
         if s.get("want") is None:
             return None
         out.append(s["want"])
@@ -736,12 +1791,13 @@ def want_bytes(p, only=None):
 
 
 def want_rc(p, only=None):
-    if p.get("ending") == "parse-error":
+    if p.get("ending") == "parse-error" or p.get("rc_unknown"):
         return None         # whether a lone brace is an error is decided by the model comparison only
+    sel = set(selected(p, only))
     for i, s in enumerate(p["stmts"]):
-        if only is not None and i not in only:
+        if i not in sel:
             continue
-        if "fail" in s:
+        if "fail" in s or s.get("wfail"):
             return 1
         if "ret" in s:
             return 0
@@ -749,8 +1805,7 @@ def want_rc(p, only=None):
 
 
 # ------------------------------------------------------------------ running both sides
-def run_model(blocks):
-    """blocks: list of list-of-lines; returns list of (status, bytes or None, failed)"""
+def run_model_chunk(blocks):
     data = ("\n".join("\n".join(b) for b in blocks) + "\n").encode("ascii")
     p = subprocess.run([common.model_bin(PROP), "run"], input=data, stdout=subprocess.PIPE, stderr=subprocess.PIPE, timeout=900)
     if p.returncode != 0:
@@ -768,6 +1823,18 @@ def run_model(blocks):
     if len(res) != len(blocks):
         raise RuntimeError("c16 model: %d results for %d cases" % (len(res), len(blocks)))
     return res
+
+
+def run_model(blocks):
+    """blocks: list of list-of-lines; returns list of (status, bytes or None, failed, per-statement output)"""
+    if len(blocks) < 64:
+        return run_model_chunk(blocks)
+    n = (len(blocks) + common.NCPU * 2 - 1) // (common.NCPU * 2)
+    chunks = [blocks[i:i + n] for i in range(0, len(blocks), n)]
+    out = []
+    for r in common.pmap(run_model_chunk, chunks):
+        out += r
+    return out
 
 
 class Runner:
@@ -819,11 +1886,7 @@ def check_program(p, m, impl):
         return {"what": "model", "model_out": exp[0], "model_rc": exp[1]}
     # the property's own reading, statement by statement (the model's per-statement output equals the
     # implementation's here, since the concatenation agreed)
-    printing = []
-    for s in p["stmts"]:
-        if "fail" in s or "ret" in s:
-            break
-        printing.append(s)
+    printing = executed(p)
     for s, mo in zip(printing, m[3]):
         if s.get("want") is not None and mo != s["want"].encode("latin-1"):
             return {"what": "spec", "stmt": stmt_src(s), "want": s["want"].encode("latin-1"), "got": mo}
@@ -832,10 +1895,22 @@ def check_program(p, m, impl):
     return None
 
 
+def needed_lets(p, i):
+    """indices of the declarations before statement i whose variable it uses (transitively)"""
+    import re
+    need, text = [], stmt_src(p["stmts"][i])
+    for j in range(i - 1, -1, -1):
+        s = p["stmts"][j]
+        if "let" in s and re.search(r"\b%s\b" % re.escape(s["let"]), text):
+            need.append(j)
+            text += " " + stmt_src(s)
+    return sorted(need)
+
+
 def locate(p, runner):
     """find single statements on which implementation, model and demanded output differ"""
     idx = [i for i, s in enumerate(p["stmts"]) if "fail" not in s and "ret" not in s]
-    progs = [dict(p, stmts=[p["stmts"][i]], ending="normal") for i in idx]
+    progs = [dict(p, stmts=[p["stmts"][j] for j in needed_lets(p, i)] + [p["stmts"][i]], ending="normal") for i in idx]
     ms = run_model([model_lines(q) for q in progs])
     outs = common.pmap(lambda q: runner.run(program_src(q)), progs)
     bad = []
@@ -847,12 +1922,13 @@ def locate(p, runner):
 
 
 def shrink_stmt(q, runner):
-    """drop declarations that are not referenced and shorten literals while the disagreement persists"""
-    s = q["stmts"][0]
-    used = " ".join(arg_src(a) for a in s["args"])
+    """drop declarations and functions that are not referenced while the disagreement persists"""
+    used = " ".join(stmt_src(s) for s in q["stmts"])
     decls = [d for d in q["decls"] if d.split("=")[0].split()[-1] in used]
     env = [e for e in q["env"] if e[0] in used]
     cand = dict(q, decls=decls, env=env)
+    if q.get("top"):
+        cand["top"] = prune_top(q["top"], used)
     m, = run_model([model_lines(cand)])
     o = runner.run(program_src(cand))
     if check_program(cand, m, o):
@@ -923,7 +1999,7 @@ def report_bad(rep, p, runner, origin):
                                "impl_stderr": o[2], "model": [m[0], (m[1] or b"").hex(), m[2]],
                                "want_hex": None if w is None else w.hex(), "origin": origin, "verdict": verdict,
                                "broken": "correspondence Model.print_multiple = output_manager.cpp (carrier of every C16 theorem)"},
-                      "%s: %s -> %s" % (q["stmts"][0].get("kind"), stmt_src(q["stmts"][0])[:140], verdict),
+                      "%s: %s -> %s" % (q["stmts"][-1].get("kind"), stmt_src(q["stmts"][-1])[:140].encode("latin-1").decode("utf-8", "replace"), verdict),
                       no_failing_input=not concrete)
 
 
@@ -943,23 +2019,32 @@ def malformed_cases(seed, n):
 
 
 # ------------------------------------------------------------------ main
+def tlog(t0, what):
+    if os.environ.get("C16_TIMING"):
+        common.log("[c16] %6.1fs %s" % (time.time() - t0, what))
+
+
 def run(rep):
     seed, tier = rep.seed, rep.tier
+    t0 = time.time()
     cq = common.coq_check_props(PROP)
+    tlog(t0, "coq_check_props")
     common.proof_coverage(rep, cq)
     if not cq["ok"]:
         rep.violation("proof", {"theorem": cq["failed_theorem"], "log": cq["log"][-3000:]},
                       "proof obligation %s no longer checks" % cq["failed_theorem"], True)
     common.ensure_model(PROP)
+    tlog(t0, "ensure_model")
     impl_dir = common.build_impl("plain")
+    tlog(t0, "build_impl")
     runner = Runner(impl_dir)
     try:
-        _run(rep, seed, tier, runner)
+        _run(rep, seed, tier, runner, t0)
     finally:
         runner.close()
 
 
-def _run(rep, seed, tier, runner):
+def _run(rep, seed, tier, runner, t0=0):
     progs, origin = [], []
     corpus = os.path.join(common.VERIF, "corpus", "c16.json")
     if os.path.exists(corpus):
@@ -984,16 +2069,28 @@ def _run(rep, seed, tier, runner):
 
     for p in boundary_programs(seed, tier):
         progs.append(p); origin.append("size-boundaries")
+    # rendering inside rendering: functions / methods that print and return interpolated strings, called from
+    # {..} segments, print and printf arguments, %s interpolated literals, initialisers, call statements
+    n_nest = 450 if tier == "quick" else 900
+    for sd in seeds:
+        for k in range(n_nest):
+            progs.append(nested_program(sd, k, tier, 24 if tier == "quick" else 40)); origin.append("nested-rendering")
+    for p in nested_malformed(seed, 20 if tier == "quick" else 100):
+        progs.append(p); origin.append("malformed-literal")
     n_pairs = 0
     if tier == "thorough":
         gp, n_pairs = grid_programs(300)
         for p in gp:
             progs.append(p); origin.append("exhaustive-grid")
 
+    tlog(t0, "generated %d programs" % len(progs))
     ms = run_model([model_lines(p) for p in progs])
+    tlog(t0, "model")
     outs = common.pmap(lambda p: runner.run(program_src(p)), progs)
+    tlog(t0, "implementation")
 
     hist, n_stmt, distinct, nontriv, kinds = {}, 0, set(), 0, {}
+    nstat = {}
     want_checked = 0
     avoided = {}
     bad = []
@@ -1011,9 +2108,11 @@ def _run(rep, seed, tier, runner):
             key = stmt_src(s)
             if key not in distinct:
                 distinct.add(key)
-                a = s["args"]
-                trivial = len(a) == 1 and (a[0]["k"] != "Q" or not any(c in a[0]["text"] for c in "{}%\\"))
+                a = s.get("args")
+                trivial = a is not None and len(a) == 1 and (a[0]["k"] in "IS" or (a[0]["k"] == "Q" and not any(c in a[0]["text"] for c in "{}%\\")))
                 nontriv += 0 if trivial else 1
+        if p.get("nested"):
+            nested_stats(p, nstat)
         d = check_program(p, m, impl)
         if d:
             bad.append((p, o, d))
@@ -1040,6 +2139,13 @@ def _run(rep, seed, tier, runner):
                            "ending at the boundary), {n:W} {n:0W} {n:Wx} {n:0WX} {n:0Wb}, plain/multi-argument println, long format literals"
                            % (BOUNDS_QUICK if tier == "quick" else BOUNDS_THOROUGH),
         "input_distribution": {"programs_by_origin": hist, "statements_by_kind": kinds, "program_endings": endings},
+        "nested_rendering": {"what": "programs whose {..} segments, print/println arguments, printf arguments, %s interpolated literals, initialisers and call "
+                                     "statements call functions / struct methods / a recursive function that print (plain, printf-style, interpolated) and "
+                                     "return interpolated strings; depth = number of renderings in progress (1 = not nested)",
+                             "call_instances": nstat.get("instances", 0),
+                             "renderings_by_depth": {str(k_): v_ for k_, v_ in sorted(nstat.get("renderings_by_depth", {}).items())},
+                             "inner_in_outer": nstat.get("inner_in_outer", {}),
+                             "programs_by_max_depth": {str(k_): v_ for k_, v_ in sorted(nstat.get("programs_by_max_depth", {}).items())}},
         "avoided_known_findings": avoided,
         "samples": [{"statement": stmt_src(sample_p["stmts"][sample_i]).encode("latin-1").decode("utf-8", "replace"),
                      "model_stdout": (sm[1] or b"").decode("utf-8", "replace")},
@@ -1052,6 +2158,7 @@ def _run(rep, seed, tier, runner):
     for (p, o, d) in bad[:4]:
         report_bad(rep, p, runner, o)
 
+    tlog(t0, "compared")
     known_findings_replay(rep, runner)
     if tier == "thorough":
         ok, txt = common.coqchk(PROP)
